@@ -19,13 +19,27 @@ SetOf(a) == { a[i] : i \in 1..Len(a) }
 Ok(e) == e.ev = "settled" => /\ SetOf(e.snapshot) = SetOf(e.running)
                              /\ e.live_counter = Cardinality(SetOf(e.running))
 
-Init == l = 1 /\ bad = <<>>
+\* `wait` events: ChitchatNode::wait_for_members (behind DatacakeNode::wait_for_nodes) called on the observer before a step is
+\* taken and answered while / after it is taken (WaitFor.tla).  Within one call the harness only adds nodes (kind "all_present")
+\* or only removes one ("absent"), so what held at some moment of the call still holds at its return:
+\*   Ok      => the snapshot at the return names every node waited for (is rid of the node waited out)   [OkMeansAllThere]
+\*   timeout => the time was up, and the snapshot at the return still lacks a node (still has it)        [TimeoutMeansMissing]
+\* Not part of C16: differences are reported as drift.
+WaitHolds(e) == IF e.kind = "all_present" THEN SetOf(e.want) \subseteq SetOf(e.snap_at_return)
+                ELSE SetOf(e.want) \cap SetOf(e.snap_at_return) = {}
+WaitOk(e) == e.ev = "wait" => IF e.result = "ok" THEN WaitHolds(e)
+                              ELSE e.elapsed_ms >= e.timeout_ms /\ ~WaitHolds(e)
+VARIABLE badw
+Init == l = 1 /\ bad = <<>> /\ badw = <<>>
 Next == /\ l <= Len(Rec) /\ l' = l + 1
         /\ bad' = IF Ok(Rec[l]) THEN bad ELSE Append(bad, l)
-Spec == Init /\ [][Next]_<<l, bad>>
+        /\ badw' = IF WaitOk(Rec[l]) THEN badw ELSE Append(badw, l)
+Spec == Init /\ [][Next]_<<l, bad, badw>>
 Accepted ==
   LET d == TLCGet("stats").diameter
   IN IF d - 1 # Len(Rec) THEN PrintT(<<"REJECTED", ToJson([line |-> d, event |-> Rec[d]])>>) /\ FALSE ELSE TRUE
 Report == (l = Len(Rec) + 1 /\ bad # <<>>) =>
             PrintT(<<"FAILS", ToJson([events |-> [i \in 1..(IF Len(bad) > 20 THEN 20 ELSE Len(bad)) |-> Rec[bad[i]]]])>>)
+ReportWaits == (l = Len(Rec) + 1 /\ badw # <<>>) =>
+            PrintT(<<"DRIFT", ToJson([events |-> [i \in 1..(IF Len(badw) > 20 THEN 20 ELSE Len(badw)) |-> Rec[badw[i]]]])>>)
 =============================================================================
